@@ -30,6 +30,8 @@ _NOISE_OK_IN_CHAIN = re.compile(r"Try>?::branch$|::from_residual$|^std::result::
 
 
 def load_vocab():
+    """The text of every rule module (and of the known-findings file): a function is 'known to the rules' if that
+    text names it (see _known)."""
     here = os.path.dirname(os.path.abspath(__file__))
     ana = os.path.dirname(here)
     files = glob.glob(os.path.join(ana, "props", "*.py"))
@@ -38,11 +40,36 @@ def load_vocab():
     kf = os.path.join(os.path.dirname(ana), "known_findings.json")
     if os.path.exists(kf):
         files.append(kf)
-    words = set()
+    text = []
     for f in files:
         with open(f) as fh:
-            words |= set(_WORD.findall(fh.read()))
-    return words
+            text.append(fh.read())
+    return "\n".join(text)
+
+
+_GENERIC = re.compile(r"<[^<>]*>")
+
+
+def _known(name, text):
+    """Does the rule text name this function? Methods must be named with their type (`Type::method`, also inside a
+    regex alternation `Type::(a|b)`); free functions by `module::name` or by their bare name as a word."""
+    segs = name.split("::")
+    last = segs[-1]
+    if len(segs) < 2:
+        return bool(re.search(r"\b%s\b" % re.escape(last), text))
+    parent = segs[-2]
+    while _GENERIC.search(parent):
+        parent = _GENERIC.sub("", parent)
+    if not parent and len(segs) >= 3:       # `Type::<A, B>::method` splits into ['Type', '<A, B>', 'method']
+        parent = _GENERIC.sub("", segs[-3])
+    if ("%s::%s" % (parent, last)) in text:
+        return True
+    if re.search(re.escape(parent) + r"::\\?\((?:[^)]*\|)?" + re.escape(last) + r"(?:\|[^)]*)?\\?\)", text):
+        return True
+    is_method = parent[:1].isupper() or parent.startswith("<")
+    if not is_method:
+        return bool(re.search(r"(?<![A-Za-z0-9_])%s(?![A-Za-z0-9_])" % re.escape(last), text))
+    return False
 
 
 def _module_private(b):
@@ -58,7 +85,7 @@ def _candidates(crate, vocab):
             continue
         if not _module_private(b):
             continue
-        if name.rsplit("::", 1)[-1] in vocab:
+        if _known(name, vocab):
             continue
         cor = crate.bodies.get(name + "::{closure#0}")
         if cor is not None and cor.kind == "coroutine":
